@@ -146,7 +146,7 @@ func (g *c08Gen) def(file string, idx int, depth int) *mj.Node {
 		if g.n(0, 3, "ycctx") == 0 {
 			yc.Ctx = mj.Str(g.id("ycc"))
 		}
-		body = append(body, mj.Text("{content:"), yc, mj.Text("}"))
+		body = append(body, mj.Text("{content:"), yc, mj.Text("}(.="), mj.Print(mj.Dot()), mj.Text(")"))
 		if g.n(0, 3, "twice") == 0 {
 			body = append(body, mj.Text("{again:"), &mj.Node{K: "ycontent"}, mj.Text("}"))
 		}
